@@ -66,6 +66,14 @@ def run_probe(repo, build_dir, test_filter=None):
     scratch = '/var/tmp/vp-probe-%d' % os.getpid()
     res = {'findings': {}, 'tests': {}, 'wall_s': 0.0, 'cache_hit': False, 'error': None, 'repo_tree': key}
     try:
+        # scratch copies left behind by a probe run that was killed (its pid no longer exists) are removed first
+        import glob as _glob
+        for d in _glob.glob('/var/tmp/vp-probe-*'):
+            try:
+                if not os.path.exists('/proc/%d' % int(d.rsplit('-', 1)[1])):
+                    shutil.rmtree(d, ignore_errors=True)
+            except ValueError:
+                pass
         shutil.rmtree(scratch, ignore_errors=True)
         os.makedirs(scratch)
         for item in ('src', 'Cargo.toml', 'Cargo.lock', 'build.rs', 'benches', 'examples'):
